@@ -72,17 +72,21 @@ def config_labels(case):
     return labs
 
 
+REL_SLACK = [1e-6]
+
+
 def slack(tol, *terms):
-    """tolerance + rounding slack: relative 1e-6 on the tolerance plus 1e-12 * sum |terms|."""
+    """tolerance + rounding slack: relative REL_SLACK (1e-6) on the tolerance plus 1e-12 * sum |terms|."""
     s = 0.0
     for t in terms:
         s += float(np.sum(np.abs(t)))
-    return tol * (1.0 + 1e-6) + 1e-12 * s
+    return tol * (1.0 + REL_SLACK[0]) + 1e-12 * s
 
 
-def kkt_violations(spec, x, y, d, vw, cw, ow, tau=TAU, alpha=ALPHA):
+def kkt_violations(spec, x, y, d, vw, cw, ow, tau=TAU, alpha=ALPHA, rel_slack=1e-6):
     """List of (clause, message) where the KKT conditions of the user's problem fail at (x,y,d)
     beyond tau times the corresponding power-of-two factor."""
+    REL_SLACK[0] = rel_slack
     r = Ref(spec)
     n, m = r.n, r.m
     x = np.asarray(x, dtype=float)
